@@ -998,14 +998,16 @@ class IrcState(IrcCommandDispatcher, log.Firewalled):
         newNick = msg.args[0]
         oldNick = msg.nick
         try:
-            if msg.user and msg.host:
-                # Nick messages being handed out from the bot itself won't
-                # have the necessary prefix to make a hostmask.
-                newHostmask = ircutils.joinHostmask(newNick,msg.user,msg.host)
-                self.nicksToHostmasks[newNick] = newHostmask
+            # Delete first: when only the case of the nick changes, both
+            # nicks are the same key.
             del self.nicksToHostmasks[oldNick]
         except KeyError:
             pass
+        if msg.user and msg.host:
+            # Nick messages being handed out from the bot itself won't
+            # have the necessary prefix to make a hostmask.
+            newHostmask = ircutils.joinHostmask(newNick,msg.user,msg.host)
+            self.nicksToHostmasks[newNick] = newHostmask
         channel_names = ircutils.IrcSet()
         for (name, channel) in self.channels.items():
             if msg.nick in channel.users:
